@@ -2,24 +2,41 @@
    Print Assumptions; refutation witnesses are closed by vm_compute. W is the window size
    (core.NumBlocksPerFilter = 8192 in juno; the witnesses use W = 4). *)
 From Coq Require Import List NArith Bool.
-From V Require Import C05.Model C05.Proofs_A C05.Proofs_B C05.Proofs_C C05.Proofs_D C05.Proofs_E.
+From V Require Import C05.Model C05.Proofs_A C05.Proofs_B C05.Proofs_C C05.Proofs_E C05.Proofs_F C05.Proofs_D.
 Import ListNotations.
 Open Scope N_scope.
 
-(* Crash right after ANY number k of committed batches of ANY operation sequence: the surviving disk
-   is consistent (head fully present or fully absent across all index families, nothing above it,
-   state tries = head state, persisted windows below the head) — provided (ops_ok) Prune keeps the
-   head, no Revert lands on a pruned block, and a Revert of the LAST block of a persisted window
-   happens with the in-memory filter in sync with the head (mem_sync). Since /repo 5440575 the revert
-   batch deletes the window it re-enters, so reverts across a window end are covered
-   (C05_crash_window_revert); before it the clause had to exclude them altogether. The mem_sync
-   clause is discharged for restart-free histories (C05_crash_restart_free, via C05_sync_preserved);
-   that it holds after every Restart (reinit is in sync) is evaluated on every run but not proved. *)
+(* Crash right after ANY number k of committed batches of ANY operation sequence (stores, reverts —
+   also across bloom-window ends —, prunes, L1 head, snapshots, graceful and ungraceful restarts with
+   their initialisation writes): the surviving disk is consistent (head fully present or fully absent
+   across all index families, nothing above it, state tries = head state, persisted windows below the
+   head, snapshot well-formed) and continuous (cont: headers contiguous up to the head, every retained
+   block has its header). Hypotheses: the start state is such a disk with the in-memory filter in sync
+   (e.g. the empty database), and the environment (ops_env) never reverts onto a pruned block and never
+   prunes the head. No hypothesis about the in-memory filter along the run: that it stays in sync is
+   proved (C05_sync_preserved for every non-Restart operation, reinit_sync for Restart). *)
 Theorem C05_crash : forall W ops k st, 0 < W ->
-  consistent W (fst st) = true -> rf_aligned W (snd st) = true -> ops_ok W ops st = true ->
-  consistent W (fst (exec_crash W ops k st)) = true.
-Proof. intros W ops k st HW Hc Ha Hok. exact (crash_consistent W ops k st HW (conj Hc Ha) Hok). Qed.
+  consistent W (fst st) = true -> cont (fst st) = true -> mem_sync W (fst st) (snd st) = true ->
+  ops_env W ops st = true ->
+  let d := fst (exec_crash W ops k st) in consistent W d = true /\ cont d = true.
+Proof. intros W ops k st HW Hc Hk Hs Hok. exact (crash_consistent W ops k st HW (conj Hc (conj Hk Hs)) Hok). Qed.
 Print Assumptions C05_crash.
+
+(* From every consistent, continuous disk — in particular from every crash image of C05_crash — a fresh
+   process (initialisation of the running filter, including its direct window writes) ends with a
+   consistent, continuous disk and a filter in sync with the head: it is ready for the next block
+   (recover_ready), every block that follows the head stores, and the result is again consistent. *)
+Theorem C05_recover : forall W d m, 0 < W -> consistent W d = true -> cont d = true ->
+  let st' := step W (d, m) (Restart false) in
+  consistent W (fst st') = true /\ cont (fst st') = true /\ mem_sync W (fst st') (snd st') = true /\
+  snd st' = reinit W d /\ recover_ready W d = true /\
+  forall b, succession_ok (fst st') b = true ->
+    stores W (fst st') (snd st') b = true /\
+    let st'' := step W st' (Store b) in
+    d_height (fst st'') = Some (b_num b) /\ consistent W (fst st'') = true /\ cont (fst st'') = true /\
+    mem_sync W (fst st'') (snd st'') = true.
+Proof. exact recover_next_store. Qed.
+Print Assumptions C05_recover.
 
 (* ... and it is the disk after a prefix of complete operations followed by a prefix of the batches
    of the next one (no hypothesis at all) ... *)
@@ -44,20 +61,12 @@ Theorem C05_crash_atomic : forall W ops k st, (forall kh e, ~ In (Prune kh e) op
 Proof. exact crash_atomic. Qed.
 Print Assumptions C05_crash_atomic.
 
-(* The in-memory filter stays in sync with the head through every operation other than Restart ... *)
+(* The in-memory filter stays in sync with the head through every operation other than Restart; after a
+   Restart it is in sync because the disk is consistent and continuous (part of C05_recover). *)
 Theorem C05_sync_preserved : forall W st o, 0 < W -> mem_sync W (fst st) (snd st) = true ->
   is_restart o = false -> mem_sync W (fst (step W st o)) (snd (step W st o)) = true.
 Proof. exact sync_step. Qed.
 Print Assumptions C05_sync_preserved.
-
-(* ... hence for restart-free histories only the environmental hypotheses remain (Prune keeps the head,
-   no Revert onto a pruned block): reverts across window ends included. *)
-Theorem C05_crash_restart_free : forall W ops k st, 0 < W ->
-  consistent W (fst st) = true -> mem_sync W (fst st) (snd st) = true ->
-  (forall o, In o ops -> is_restart o = false) -> ops_env W ops st = true ->
-  consistent W (fst (exec_crash W ops k st)) = true.
-Proof. exact crash_consistent_restart_free. Qed.
-Print Assumptions C05_crash_restart_free.
 
 (* A failed commit leaves the disk unchanged (single-batch operations) / exactly at the batches
    committed before it (prune). *)
@@ -113,8 +122,8 @@ Proof. vm_compute. repeat split; reflexivity. Qed.
    at 4 and block 3 could never be stored again.) *)
 Example C05_crash_window_revert :
   let ops := chain5 ++ [Revert; Revert] in
-  ops_ok 4 ops st0 = true /\
-  forallb (fun k => let d := fst (exec_crash 4 ops k st0) in consistent 4 d && recover_ready 4 d && index_covers 4 d)
+  ops_env 4 ops st0 = true /\
+  forallb (fun k => let d := fst (exec_crash 4 ops k st0) in consistent 4 d && cont d && recover_ready 4 d && index_covers 4 d)
           (seq 0 9) = true /\
   let d := fst (exec_crash 4 ops 7 st0) in
   d_height d = Some 2 /\ d_windows d = [] /\ stores 4 d (reinit 4 d) (blk 3 203 102 [9]) = true.
@@ -127,7 +136,7 @@ Proof. vm_compute. repeat split; reflexivity. Qed.
 Example C05_crash_sync_needed :
   let d := fst (run 4 (firstn 4 chain5) st0) in
   let m := {| rf_from := 0; rf_cols := []; rf_next := 3; rf_err := false |} in
-  consistent 4 d = true /\ rf_aligned 4 m = true /\ ops_ok 4 [Revert] (d, m) = false /\
+  consistent 4 d = true /\ cont d = true /\ rf_wf 4 m = true /\ mem_sync 4 d m = false /\
   consistent 4 (fst (exec_crash 4 [Revert] 1 (d, m))) = false.
 Proof. vm_compute. repeat split; reflexivity. Qed.
 
@@ -137,7 +146,7 @@ Proof. vm_compute. repeat split; reflexivity. Qed.
 Example C05_crash_index_refuted :
   let ops := firstn 3 chain5 ++ [Restart true; Revert; Store (blk 2 202 101 [7])] in
   let d := fst (exec_crash 4 ops 6 st0) in
-  ops_ok 4 ops st0 = true /\ consistent 4 d = true /\ recover_ready 4 d = true /\
+  ops_env 4 ops st0 = true /\ consistent 4 d = true /\ cont d = true /\ recover_ready 4 d = true /\
   index_covers 4 d = false.
 Proof. vm_compute. repeat split; reflexivity. Qed.
 
@@ -166,7 +175,7 @@ Definition history : list op :=
               Prune true 6; Store (blk 12 212 211 [6]); Restart true; Revert; Revert].
 
 Example C05_crash_nonvacuous :
-  ops_ok 4 history st0 = true /\
+  ops_env 4 history st0 = true /\
   forallb (fun k => let d := fst (exec_crash 4 history k st0) in
-                    consistent 4 d && recover_ready 4 d && index_covers 4 d) (seq 0 45) = true.
+                    consistent 4 d && cont d && recover_ready 4 d && index_covers 4 d) (seq 0 45) = true.
 Proof. vm_compute. split; reflexivity. Qed.
